@@ -22,6 +22,7 @@ package checks
 // on the wire (read independently), and how to read its own claims back.
 
 import (
+	"pgregory.net/rapid"
 	"encoding/json"
 	"fmt"
 	"sort"
@@ -485,4 +486,25 @@ func (s extStyle) roundTrips(c psatoken.IClaims, m *MClaims, what string, own ..
 		}
 	}
 	return ""
+}
+
+
+// drawOwnPresent: which of a style's n own claims are present. For styles with
+// many of them the NUMBER present matters (the emitted map crosses the 23 / 24
+// entries boundary of the CBOR head): half of the time only a few are left out.
+func drawOwnPresent(t *rapid.T, n int, label string) []bool {
+	r := make([]bool, n)
+	if n >= 10 && genBool.Draw(t, label+".mostly-present") {
+		for i := range r {
+			r[i] = true
+		}
+		for k := rapid.IntRange(0, 6).Draw(t, label+".left-out"); k > 0; k-- {
+			r[rapid.IntRange(0, n-1).Draw(t, label+".which")] = false
+		}
+		return r
+	}
+	for i := range r {
+		r[i] = genBool.Draw(t, fmt.Sprintf("%s%d", label, i))
+	}
+	return r
 }
